@@ -1,0 +1,103 @@
+//go:build verif
+
+// Contracts for the deductive verifier in /verif (gocv). Comment-only file. Keys are abstract (bytes: key): points of a
+// total order with concatenation kcat(a, b) = a ++ b, suffix kdrop(x, n) = x[n:] and, for a prefix p that has one,
+// pend(p) = the least key above every key with prefix p (engine axioms: facts of byte strings under the lexicographic
+// order, assumed). enc(c, k) is the wire form of logical key k.
+
+package apicodec
+
+//@ spec func enc(c *codecV2, k []byte) []byte { return kcat(c.prefix, k) }
+// the keyspace invariant established by NewCodecV2: a non-empty prefix with a successor, and endKey is that successor
+//@ spec func ksOK(c *codecV2) bool { return c.prefix != "" && hasSucc(c.prefix) && c.endKey == pend(c.prefix) }
+// membership of a logical key in a logical range (empty end = unbounded) and of a wire key in a wire range
+//@ spec func inRange(k []byte, start []byte, end []byte) bool { return start <= k && (end == "" || k < end) }
+
+// the memory-comparable layer used for region keys: an order embedding with a left inverse (proved for
+// util/codec.EncodeBytes/DecodeBytes under C19 as far as stated there; assumed here)
+//@ spec func menc(x []byte) []byte
+//@ axiom mencMono: forall a []byte :: forall b []byte :: (a < b) == (menc(a) < menc(b))
+//@ axiom mencNonEmpty: forall a []byte :: menc(a) != ""
+
+//@ func (memCodec) encodeKey
+//@   trusted
+//@   bytes: key
+//@   modifies nothing
+//@   ensures result == menc(key)
+
+//@ func (memCodec) decodeKey
+//@   trusted
+//@   bytes: key
+//@   modifies nothing
+//@   ensures result1 == nil ==> menc(result0) == encodedKey
+
+//@ func (*codecV2) EncodeKey
+//@   prop C15
+//@   bytes: key
+//@   modifies nothing
+//@   ensures result == enc(c, key)
+
+// DecodeKey strips exactly the prefix: it inverts EncodeKey and refuses every key outside the keyspace.
+//@ func (*codecV2) DecodeKey
+//@   prop C15
+//@   bytes: key
+//@   modifies nothing
+//@   ensures inverse: encodedKey != "" && result1 == nil ==> enc(c, result0) == encodedKey
+//@   ensures refuse: result1 != nil ==> encodedKey != "" && !bytes.HasPrefix(encodedKey, c.prefix)
+//@   ensures empty: encodedKey == "" ==> result1 == nil && result0 == ""
+
+// encodeRange: a logical key is in the logical range exactly when its wire form is in the wire range, the wire range is
+// always bounded and lies inside the keyspace. For reverse scans the roles of the two arguments are swapped.
+//@ func (*codecV2) encodeRange
+//@   prop C15
+//@   bytes: key
+//@   requires ksOK(c)
+//@   modifies nothing
+//@   ensures fwd: !reverse ==> result1 != "" && c.prefix <= result0 && result1 <= c.endKey && forall k []byte :: inRange(k, start, end) <==> (result0 <= enc(c, k) && enc(c, k) < result1)
+//@   ensures rev: reverse ==> result0 != "" && c.prefix <= result1 && result0 <= c.endKey && forall k []byte :: inRange(k, end, start) <==> (result1 <= enc(c, k) && enc(c, k) < result0)
+
+//@ func (*codecV2) EncodeRange
+//@   prop C15
+//@   bytes: key
+//@   requires ksOK(c)
+//@   modifies nothing
+//@   ensures result1 != "" && forall k []byte :: inRange(k, start, end) <==> (result0 <= enc(c, k) && enc(c, k) < result1)
+
+// DecodeRange: the logical range returned holds exactly the logical keys whose wire form lies in the wire range
+// (empty wire end = unbounded); it fails only when no key of the keyspace lies in the wire range.
+//@ func (*codecV2) DecodeRange
+//@   prop C15
+//@   bytes: key
+//@   requires ksOK(c)
+//@   modifies nothing
+//@   ensures same: err == nil ==> forall k []byte :: inRange(k, start, end) <==> inRange(enc(c, k), encodedStart, encodedEnd)
+//@   ensures none: err != nil ==> forall k []byte :: !inRange(enc(c, k), encodedStart, encodedEnd)
+
+//@ func (*codecV2) EncodeRegionKey
+//@   prop C15
+//@   bytes: key
+//@   modifies nothing
+//@   ensures result == menc(enc(c, key))
+
+//@ func (*codecV2) DecodeRegionKey
+//@   prop C15
+//@   bytes: key
+//@   modifies nothing
+//@   ensures result1 == nil && result0 != "" ==> menc(enc(c, result0)) == encodedKey
+
+//@ func (*codecV2) EncodeRegionRange
+//@   prop C15
+//@   bytes: key
+//@   requires ksOK(c)
+//@   modifies nothing
+//@   ensures result1 != "" && forall k []byte :: inRange(k, start, end) <==> (result0 <= menc(enc(c, k)) && menc(enc(c, k)) < result1)
+
+// (A region end key is either empty = unbounded or the encoding of a non-empty key: the encoding of the empty key would
+// decode to "unbounded". PD never reports such a bound; stated as a precondition.)
+//@ func (*codecV2) DecodeRegionRange
+//@   prop C15
+//@   bytes: key
+//@   requires ksOK(c)
+//@   requires wellformed: encodedEnd != menc("")
+//@   modifies nothing
+//@   ensures same: result2 == nil ==> forall k []byte :: inRange(k, result0, result1) <==> inRange(menc(enc(c, k)), encodedStart, encodedEnd)
